@@ -107,6 +107,18 @@ func newModel() *model {
 
 func (m *model) live(svc string) map[string]bool {
 	out := map[string]bool{}
+	if svc == "D1" || svc == "D2" {
+		// bd and bd2 serve both services of the file, bh only D1
+		for _, b := range []string{"bd", "bd2"} {
+			if m.conns[b] {
+				out[b] = true
+			}
+		}
+		if svc == "D1" && m.conns["bh"] {
+			out["bh"] = true
+		}
+		return out
+	}
 	if svc == "AX" {
 		// the method only revision 2 of service A has: served by b4 alone
 		if m.conns["b4"] {
@@ -127,7 +139,7 @@ func (m *model) live(svc string) map[string]bool {
 
 func (m *model) sig() string {
 	var parts []string
-	for _, s := range []string{"A", "B", "C", "D", "T"} {
+	for _, s := range []string{"A", "B", "C", "D1", "D2", "T"} {
 		var t []string
 		for k := range m.live(s) {
 			t = append(t, k)
@@ -179,7 +191,7 @@ type reqSpec struct {
 
 var methods = []struct{ full, svc string }{
 	{"/vf.rs.A/Get", "A"}, {"/vf.rs.A/Put", "A"}, {"/vf.rs.B/Get", "B"}, {"/vf.rs.C/Get", "C"},
-	{"/vf.rs.D1/Get", "D"}, {"/vf.rs.D2/Get", "D"},
+	{"/vf.rs.D1/Get", "D1"}, {"/vf.rs.D2/Get", "D2"},
 	{"/vf.rs.A/Extra", "AX"},
 	{"/vf.rs.T/Get", "T"},
 }
